@@ -242,37 +242,23 @@ def strip31(st):
 
 
 def g_map(r, depth=0):
-    n = r.randint(0, 3)
+    """keys: at most one numeric and one string-like key, so no two keys can be equal as map keys"""
     keylab = r.choice(['string', 'integer', 'string', 'NCName', 'date', 'double'])
-    entries = []
-    seen = set()
-    for _ in range(n):
+    entries, families = [], set()
+    for _ in range(r.randint(0, 3)):
         lab = keylab if r.random() < 0.8 else r.choice(['string', 'integer', 'boolean'])
         k = g_atom(r, lab)
-        if k[2] in seen:
+        if M.derives(lab, 'numeric'):
+            fam = 'numeric'
+        elif M.derives(lab, 'string') or lab in ('anyURI', 'untypedAtomic'):
+            fam = 'string'
+        else:
+            fam = k[2]
+        if fam in families:
             continue
-        seen.add(k[2])
+        families.add(fam)
         entries.append([k, g_value(r, '3.1', depth + 1, maxlen=2)])
-    # keys must be distinct as values: keep one key per (label-family, expr); duplicates like 1 / xs:byte(1)
-    # are avoided by using a single expression per numeric family
-    fam = set()
-    out = []
-    for k, v in entries:
-        f = 'num' if M.derives(k[1], 'numeric') else ('str' if M.derives(k[1], 'string') or k[1] in ('anyURI', 'untypedAtomic') else k[1])
-        key = (f, k[2] if f != 'num' else 'n')
-        if key in fam or (f == 'str' and ('str', 's') in fam and False):
-            continue
-        fam.add(key)
-        out.append([k, v])
-    # strings of different derived types may still be equal as keys: keep at most one string-family key
-    res, have_str = [], set()
-    for k, v in out:
-        if M.derives(k[1], 'string') or k[1] in ('anyURI', 'untypedAtomic'):
-            if have_str:
-                continue
-            have_str.add(1)
-        res.append([k, v])
-    return ['m', res]
+    return ['m', entries]
 
 
 def g_array(r, depth=0):
@@ -323,8 +309,7 @@ def item_expr(x):
     if x[0] == 'm':
         return 'map{' + ', '.join('%s: %s' % (item_expr(k), value_expr(v)) for k, v in x[1]) + '}'
     if x[0] == 'r':
-        return 'array{' + ', '.join(value_expr(v) for v in x[1]) + '}' if all(len(v) == 1 for v in x[1]) and False \
-            else '[' + ', '.join(value_expr(v) for v in x[1]) + ']'
+        return '[' + ', '.join(value_expr(v) for v in x[1]) + ']'
     raise ValueError(x)
 
 
@@ -474,8 +459,6 @@ def exact_seq_type(r, items):
     if not items:
         return ['empty']
     it = exact_item_type(r, items[r.randrange(len(items))])
-    if it[0] == 'function' and it[1] is not None:
-        pass
     occ = '' if len(items) == 1 else r.choice(['+', '*'])
     return ['seq', it, occ]
 
@@ -1018,7 +1001,8 @@ def function_test_key(pre, x, it, d1):
             if e is False:
                 # all gaps of the relation w.r.t. the 3.1 subtype rules share one key (pair in the detail)
                 cause = cause.split('/')[0]
-            return pre + 'function-test/relation-%s/%s' % (
+            # the relation is shared by every judgement: one key whichever judgement exposed it
+            return 'C18/function-test/relation-%s/%s' % (
                 {True: 'unsound', False: 'incomplete'}.get(e, e), cause)
     return None
 
@@ -1240,9 +1224,9 @@ def run_judge(case, out):
         api_key = classify('match_sequence_type', judge_api, spec, items, st, api, model) if api != model else None
         if api_key is not None and api == io and io_key is not None and \
                 io_key.replace('/instance-of/', '/match_sequence_type/') == api_key and \
-                ('/function-test/' in api_key or 'atomic-type' in api_key or 'union-type' in api_key):
+                (api_key.startswith('C18/function-test/') or 'atomic-type' in api_key or 'union-type' in api_key):
             # function tests and atomic types go through the same code for both judgements
-            out.dim('api_failure_shared_with_instance_of', api_key.split('/', 2)[2])
+            out.dim('api_failure_shared_with_instance_of', api_key.split('/', 1)[1])
         elif api_key is not None:
             out.fail(api_key,
                      {'call': 'match_sequence_type(%s, %r)' % (vexpr, text), 'version': ver,
@@ -1680,8 +1664,6 @@ def run_sig(case, out):
         out.obs = '%s -> %s' % (expr, list(o))
         return
     res = o[1]
-    if isinstance(res, XPathFunction) and getattr(res, 'label', None) == 'partial function' and via == 'api':
-        pass
     out.dim('sig_success:' + ver, sig)
     out.dim('sig_calls', 'success')
     out.dim('sig_outcome', 'ok')
@@ -1775,8 +1757,6 @@ def run(h):
     for ver in VERS:
         sigs = signatures(ver)
         for idx, (fn, arity, text) in enumerate(sigs):
-            if h.nshards > 1 and h.tier == 'thorough' and False:
-                continue
             for c in g_sig_calls(r, ver, fn, arity, text, h.n(per_sig)):
                 h.case('sig', c)
     # report signatures never returning successfully (inconclusive per signature, not held)
@@ -1789,6 +1769,9 @@ def run(h):
                 never.append('%s %s' % (ver, s))
     h.extra['signatures_without_successful_call'] = never
     h.extra['signatures_total'] = sum(len(signatures(v)) for v in VERS)
+    if h.shard == 0:
+        h.extra['signatures_reached'] = sum(len(h.counters.get('sig_reached:' + v, {})) for v in VERS)
+        h.extra['signatures_with_successful_call'] = sum(len(h.counters.get('sig_success:' + v, {})) for v in VERS)
 
 
 def floors(v):
